@@ -118,6 +118,7 @@ type Inv struct {
 	Precision int    `json:"precision"`
 	F         string `json:"f"`
 	O         bool   `json:"o"`
+	Obad      bool   `json:"obad"` // -o names a file in a directory that does not exist
 	P         bool   `json:"p"`
 	T         string `json:"t"`
 	Gdd       bool   `json:"gdd"`
@@ -536,7 +537,7 @@ func driveProc(p *Plan, shard int, w *Writer, t *codec.Table) {
 		if sess%p.Shards != shard {
 			continue
 		}
-		isErrCase := inv.Pair == 9 || inv.In2 == "mismatch" || inv.In1 != "ok" || inv.In2 != "ok" || inv.Version || inv.Gdd || inv.Nargs == 0 || inv.Nargs >= 3 || inv.F == "bogus" || inv.T == "bogus" || inv.Setkeys == "bad" || (inv.P && inv.T != "")
+		isErrCase := inv.Obad || inv.Pair == 9 || inv.In2 == "mismatch" || inv.In1 != "ok" || inv.In2 != "ok" || inv.Version || inv.Gdd || inv.Nargs == 0 || inv.Nargs >= 3 || inv.F == "bogus" || inv.T == "bogus" || inv.Setkeys == "bad" || (inv.P && inv.T != "")
 		if !isErrCase && !keep(p.Seed, frac, "inv", ii) {
 			continue
 		}
@@ -625,6 +626,9 @@ func driveProc(p *Plan, shard int, w *Writer, t *codec.Table) {
 			in2 = text(pr.B) // the diff was made for pr.A
 		}
 		f1, f2, outFile := filepath.Join(dir, "in1"), filepath.Join(dir, "in2"), filepath.Join(dir, "out")
+		if inv.Obad {
+			outFile = filepath.Join(dir, "no-such-directory", "out")
+		}
 		if inv.In1 != "missing" {
 			os.WriteFile(f1, []byte(in1), 0644)
 		}
